@@ -168,7 +168,10 @@ def extra_props(prog):
 
 
 def props_of(prog, f, c09):
-    return PROPS + (['C09'] if f.path in c09 else [])
+    # the tree core also carries the shape invariants on which NULL's reasoned exceptions rest (inner child of a rotated
+    # node, sibling of a double-black node): a copy or a mirror arm that deviates invalidates those reasons, so the
+    # agreement checks serve C10 as well
+    return PROPS + (['C09'] if f.path in c09 else []) + (['C10'] if f.self_adt in prog.tree_adts else [])
 
 
 def rename_map(prog, trees):
@@ -344,11 +347,11 @@ def run(ctx):
                 bb = commute_eq(unblock(b))
                 sig = 'mirror-branch#%d(%s)' % (i, kind)
                 if ma != bb and G.self_symmetric(G.gef(prog, f))[1]:
-                    ctx.add(RULE, f, sig, 'ok', 'the arms are written differently, but the function\'s guarded effects are left/right symmetric', PROPS, f.line)
+                    ctx.add(RULE, f, sig, 'ok', 'the arms are written differently, but the function\'s guarded effects are left/right symmetric', props_of(prog, f, c09), f.line)
                 elif ma == bb:
-                    ctx.add(RULE, f, sig, 'ok', 'the two arms are left/right mirror images (condition %s)' % show(c, 0, 3)[:80], PROPS, f.line)
+                    ctx.add(RULE, f, sig, 'ok', 'the two arms are left/right mirror images (condition %s)' % show(c, 0, 3)[:80], props_of(prog, f, c09), f.line)
                 else:
-                    ctx.add(RULE, f, sig, 'violation', 'arms under mirrored conditions are not mirror images of each other; first difference at %s' % first_diff(ma, bb), PROPS, f.line,
+                    ctx.add(RULE, f, sig, 'violation', 'arms under mirrored conditions are not mirror images of each other; first difference at %s' % first_diff(ma, bb), props_of(prog, f, c09), f.line,
                             {'condition': show(c, 0, 4), 'difference': first_diff(ma, bb)})
     # ---- 4. left/right symmetry of the guarded effects of every core function that asks "which side am I on" -------
     n_sym = 0
